@@ -834,7 +834,7 @@ def audit_derived(ctx, shard):
                         ctx.outcome(("derived", ref[0][0] if ref else None))
 
 
-def run_audit(shard, ctx):
+def _run_audit(shard, ctx):
     from mc.models import align_audit as AU
 
     sub = shard["sub"]
@@ -858,6 +858,27 @@ def run_audit(shard, ctx):
         audit_resize(ctx, shard)
     elif sub == "derived":
         audit_derived(ctx, shard)
+
+
+DIFFERENTIAL_SUBS = {"mirror": "mirror", "alias": "alias", "identity": "identity", "resize": "resize",
+                     "derived": "derived", "argument_types": "argtypes"}
+
+
+def run_audit(shard, ctx):
+    """The differential families run without an oracle of their own; they are clean on the unchanged tree, so an
+    exception inside one of them is an observation about the library, not a harness fault."""
+    sub = shard["sub"]
+    if sub not in DIFFERENTIAL_SUBS:
+        return _run_audit(shard, ctx)
+    try:
+        _run_audit(shard, ctx)
+    except Exception as e:  # noqa: BLE001
+        import traceback
+
+        ctx.violation("%s|%s_family_raised_%s|any" % ("align_optimal", sub, type(e).__name__),
+                      "an operation inside the differential family raised: %s" % str(e)[:150],
+                      {"kind": DIFFERENTIAL_SUBS[sub], "variant": shard["variant"], "embed": shard["embed"],
+                       "k": [2, 2], "fam": "asym"}, None, traceback.format_exc()[-600:])
 
 
 def crash_class(case):
